@@ -84,6 +84,7 @@ def make_grid(c):
             g = sh.Grid(spherical_harmonics_impl=impl, **kw)
     if len(cache) > 64: cache.clear()
     cache[key] = g
+    _state.setdefault('used_nodes', set()).add((c.get('spacing', 'gauss'), int(c['J'])))
     return g
 
 
@@ -290,6 +291,8 @@ def generate(ctx):
                 yield 'layout', {'cfg': fc}
                 yield 'transforms', {'cfg': fc, 'seed': seed, 'max_onehot': 4, 'max_model_analysis': 1, 'lead': [],
                                      'dense_analysis_model': False}
+
+    yield 'cache_integrity', {}
 
 
 # ---------------------------------------------------------------------------
@@ -787,4 +790,31 @@ def r_forms(ctx, a):
     ctx.count('forms:' + tag)
 
 
-RUNNERS = {'rejects': r_rejects, 'forms': r_forms, 'mesh': r_mesh, 'fourier_closed_form': r_fourier_closed_form, 'factory': r_factory, 'layout': r_layout, 'tables': r_tables, 'transforms': r_transforms}
+def r_cache_integrity(ctx, a):
+    """State across calls: module-level caches (lru_cache of the equiangular node functions) and per-grid cached
+    tables must still hold what a fresh evaluation gives after everything this process has run, and grids of both
+    implementations sharing one cached node table must not disturb each other (any order)."""
+    jax, jnp, sh, fourier, al = J_()
+    used = sorted(_state.get('used_nodes', set())) + [('equiangular', 6), ('equiangular_with_poles', 5)]
+    # a deliberate interleaving on shared cached nodes: fast, reference, fast (padded), reference
+    for sp, Jn in [('equiangular', 6), ('equiangular_with_poles', 5)]:
+        ws = []
+        for impl in ('fast', 'real', 'fast', 'real'):
+            c = dict(M=2, L=3, I=5 + len(ws), J=Jn, spacing=sp, offset=0.0, radius=1.0, impl=impl)
+            if impl == 'fast': c.update(base=4 if ws else 1, stacked=0, rev=0)
+            g = make_grid(c); w = tables(g)[2]
+            fn = al.equiangular_nodes if sp == 'equiangular' else al.equiangular_nodes_with_poles
+            _, wfresh = fn.__wrapped__(Jn)
+            ws.append(bool(np.array_equal(w[:Jn], (2 * np.pi / c['I']) * wfresh)))
+        ctx.oracle(f'basis.w = (2 pi / I) * freshly computed latitude weights for grids sharing cached nodes ({sp})', all(ws), ws)
+    bad = []
+    for sp, Jn in used:
+        if sp == 'gauss': continue
+        fn = al.equiangular_nodes if sp == 'equiangular' else al.equiangular_nodes_with_poles
+        xc, wc = fn(Jn); xf, wf_ = fn.__wrapped__(Jn)
+        if not (np.array_equal(xc, xf) and np.array_equal(wc, wf_)): bad.append([sp, Jn])
+    ctx.oracle('lru_cached latitude nodes / weights equal a fresh evaluation at the end of the run (cache never mutated)', not bad, bad)
+    ctx.count('cache_integrity:node tables checked', len(used))
+
+
+RUNNERS = {'cache_integrity': r_cache_integrity, 'rejects': r_rejects, 'forms': r_forms, 'mesh': r_mesh, 'fourier_closed_form': r_fourier_closed_form, 'factory': r_factory, 'layout': r_layout, 'tables': r_tables, 'transforms': r_transforms}
